@@ -118,6 +118,20 @@ func registerEth(e *Engine) {
 		return out
 	})
 	e.reg(cm+"FromHex", func(fr *frame, args []value) value {
+		if ss, ok := args[0].(*SymStr); ok {
+			cells := ss.toCells(fr)
+			if len(cells) >= 2 {
+				if a, ok := cells[0].(uint64); ok && a == '0' {
+					if b, ok := cells[1].(uint64); ok && (b == 'x' || b == 'X') {
+						cells = cells[2:]
+					}
+				}
+			}
+			if out, ok := unhexNibbleCells(fr, cells); ok {
+				return out
+			}
+			abort("unmodelled", "FromHex of symbolic string %s", ss)
+		}
 		s, ok := args[0].(string)
 		if !ok {
 			abort("unmodelled", "FromHex of symbolic string")
